@@ -3,7 +3,7 @@ import json
 from tools import vlib, corr, gen, catalogue
 
 RULE = ('cost layer: the reader-primitive call counts of Model/CostScan.v (extracted) vs sys.setprofile counts of Reader.peek/prefix/forward/get_mark while yaml.scan runs, on the corpus files that '
-        'scan and on the load catalogue at four sizes (prefix, forward, get_mark within 5%, peek within 30% - the model evaluates some self.peek() tests eagerly where Python short-circuits: affine agreement). Direct on the implementation: every family of the catalogue (30 load families, '
+        'scan and on the load catalogue at four sizes (prefix, forward, get_mark within 5%, peek within 30% - the model evaluates some self.peek() tests eagerly where Python short-circuits: affine agreement). Direct on the implementation (Python-level and builtin-level calls both counted; plus 11 families that go through customised loader/dumper classes - wildcard implicit resolver, multi-representer, multi-constructor, path resolver, repeated calls on one class): every family of the catalogue (30 load families, '
         '16 dump families x 6 option sets) at sizes n, 2n, 4n (quick n=60, thorough n=60 and 250): interpreter-level function calls counted with sys.setprofile for safe_load_all / safe_dump; '
         'calls per character of the document read/written may grow by at most 15% (+400 calls) at both doublings. exhaustive over the catalogue. non-trivial = every family; distinct by (side, family, n, options)')
 
@@ -36,6 +36,7 @@ def run(ctx):
         for f in catalogue.DUMP:
             for o in (None, {'default_flow_style': True, 'width': 40}, {'default_style': '"', 'allow_unicode': True, 'sort_keys': False}, {'default_flow_style': None}, {'canonical': True}, {'default_style': '|', 'indent': 7, 'explicit_start': True}):
                 cases.append(['dump', f, n, o])
+        for f in catalogue.CUSTOM: cases.append(['custom', f, n, None])
     res = corr.direct(ctx, 'c20', cases, describe=lambda c: dict(side=c[0], family=c[1], n=c[2], opts=c[3]), label='doubling')
     worst = 0
     for c, r in zip(cases, res):
